@@ -127,6 +127,52 @@ def h_history(T, P, length, nmenu, with_clim=False, with_T=False):
     return fn
 
 
+def h_history_fields(length):
+    """Sequences over *different kinds of field with equal parameters*: a threshold probability and a quantile
+    with the same numerical value (p0.5 and q0.5), an extra field, obs.  The caches are keyed by field: the last
+    request returns what a fresh dataset returns."""
+    def fn(S):
+        data = load.modules["verif.data"]
+        ax = load.modules["verif.axis"]
+        f = load.modules["verif.field"]
+        MI = common.input_class()
+        shape = (2, 1, 1)
+        obs, fcst = S.array("A.obs", shape), S.array("A.fcst", shape)
+        p = S.array("A.p", shape + (1,))
+        q = S.array("A.q", shape + (1,))
+
+        def build():
+            return data.Data([MI("A.txt", common.int_array(S, [0, 86400]), S.vector([0.0]), common.locations([1]),
+                                 obs=obs.copy(), fcst=fcst.copy(), thresholds=S.const([0.5]), threshold_scores=p.copy(),
+                                 quantiles=S.const([0.5]), quantile_scores=q.copy())])
+        O, TH, QU = f.Obs(), f.Threshold(0.5), f.Quantile(0.5)
+        m = [("p0.5/No", TH, ax.No(), None), ("q0.5/No", QU, ax.No(), None), ("[obs,p0.5]/All", [O, TH], ax.All(), None),
+             ("[obs,q0.5]/All", [O, QU], ax.All(), None), ("[q0.5,p0.5]/Time0", [QU, TH], ax.Time(), 0)]
+        D = build()
+        seq = [S.choose("req%d" % i, len(m)) for i in range(length)]
+        snap = None
+        for r in seq:
+            name, fields, axis, idx = m[r]
+            snap = [list(S.elements(a)) for a in as_list(D.get_scores(fields, 0, axis, idx))]
+        name, fields, axis, idx = m[seq[-1]]
+        hist = "+".join(m[r][0] for r in seq[:-1])
+        fresh = as_list(build().get_scores(fields, 0, axis, idx))
+        S.observe("last", snap)
+        ok = len(snap) == len(fresh) and all(len(x) == len(S.elements(y)) for x, y in zip(snap, fresh))
+        S.prove("same-shape-as-fresh", ok, detail="%s after %s" % (name, hist))
+        if ok:
+            S.prove("same-as-fresh-dataset", S.all(S.same(x, y) for sx, fy in zip(snap, fresh) for x, y in zip(sx, S.elements(fy))),
+                    twin=S.same(snap[0][0], S.elements(fresh[0])[0] + 1), detail="%s after %s" % (name, hist))
+        # and the fresh answer is the stored column of that kind
+        want = {"p0.5": p, "q0.5": q}
+        if name in ("p0.5/No", "q0.5/No"):
+            col = want[name.split("/")[0]]
+            cells = [c for c in np.ndindex(*shape) if not bool(S.isnan(col[c + (0,)]))]
+            if cells and len(snap[0]) == len(cells):
+                S.prove("field-of-its-own-kind", S.all(S.same(x, col[c + (0,)]) for x, c in zip(snap[0], cells)), detail=name)
+    return fn
+
+
 def harnesses(tier):
     if tier == "thorough":
         return [
@@ -134,7 +180,9 @@ def harnesses(tier):
             Harness("history.len3", h_history(2, 1, 3, 10), "all sequences of 3 requests, one location"),
             Harness("history.clim", h_history(2, 2, 2, 10, with_clim=True), "sequences of 2 requests with a climatology"),
             Harness("history.T", h_history(1, 2, 2, 10, with_T=True), "sequences of 2 requests with -T pre-aggregation over two lead times"),
+            Harness("history.fields", h_history_fields(3), "sequences of 3 requests over threshold / quantile fields with equal parameters"),
         ]
     return [Harness("history.len2", h_history(2, 2, 2, 6), "all sequences of 2 requests over a 6-request menu"),
             Harness("history.clim", h_history(1, 2, 2, 6, with_clim=True), "the same with a climatology (anomalies), 1 time x 2 locations"),
-            Harness("history.T", h_history(1, 1, 2, 6, with_T=True), "the same with -T pre-aggregation over two lead times, 1 time x 1 location")]
+            Harness("history.T", h_history(1, 1, 2, 6, with_T=True), "the same with -T pre-aggregation over two lead times, 1 time x 1 location"),
+            Harness("history.fields", h_history_fields(2), "sequences of 2 requests over threshold / quantile fields with equal parameters (p0.5, q0.5)")]
